@@ -1,5 +1,6 @@
 SPECIFICATION Spec
 CONSTANT MaxLen = 2
+CONSTANT Alphabet <- NameAlphabet
 CONSTANT Mode = "inverse"
 INVARIANT InverseOK
 INVARIANT Emit
